@@ -6,22 +6,26 @@ From Verif Require Import lib.Wire c14.Model c14.Spec c14.Proofs c14.Proofs_Abs 
 Import ListNotations.
 Local Open Scope Z_scope.
 
-(* THE property on traces.  For every configuration with a non-negative low
-   watermark and every finite history of Connected/Disconnected (duplicates,
-   unknown connections), TagPeer/UntagPeer/UpsertTag, decaying Bump/Remove/
-   Close, Protect/Unprotect, clock advances, TrimOpenConns and ForceTrim over
-   the np observed peers, the trace of the model is accepted by the very
-   monitor that is run on the implementation's traces: after every operation
-   the connection count and every peer's tag total equal what the bookkeeping
-   of Spec.v derives from the operations alone, every TrimOpenConns closed set
-   satisfies trim_prop and every ForceTrim closed set satisfies force_prop.
-   PARTIAL: histories are sequential (each operation atomic); trims racing
-   with other operations are covered by the correspondence only. *)
-Theorem c14_monitor_accepts_model_partial : forall cfg np ops,
-  0 <= c_low cfg -> Forall (op_within np) ops ->
+(* THE property on SEQUENTIAL traces, unconditionally.  For every configuration
+   (any watermarks, grace period, decayer resolution and decaying tags; a
+   negative low watermark is read as 0 by the monitor) and every finite history
+   of Connected/Disconnected (duplicates, unknown connections),
+   TagPeer/UntagPeer/UpsertTag, decaying Bump/Remove/Close, Protect/Unprotect,
+   clock advances, TrimOpenConns and ForceTrim - each one atomic step; a trim
+   of the background loop is a TrimOpenConns issued by the environment at any
+   point - the trace of the model is accepted by the very monitor that is run on
+   the implementation's traces: after every operation the connection count and
+   every peer's tag total equal what the bookkeeping of Spec.v derives from the
+   operations alone, every TrimOpenConns closed set satisfies trim_prop and
+   every ForceTrim closed set satisfies force_prop.  The observation window np
+   only has to contain the peers the history mentions.
+   (Histories in which operations overlap a trim are the subject of the
+   c14_conc_* theorems below, for every schedule.) *)
+Theorem c14_monitor_accepts_every_sequential_history : forall cfg ops np,
+  (width ops <= np)%nat ->
   monitor cfg np (mtrace cfg np (init cfg) ops) = [].
-Proof. exact monitor_model. Qed.
-Print Assumptions c14_monitor_accepts_model_partial.
+Proof. intros cfg ops np H. exact (monitor_model cfg np ops (width_within ops np H)). Qed.
+Print Assumptions c14_monitor_accepts_every_sequential_history.
 
 (* "each peer's tag total": the cached value equals the sum of the peer's tag
    values (plain and decaying) after every history, trims included *)
@@ -73,7 +77,7 @@ Theorem c14_trim_clauses : forall cfg s cl, trim_prop cfg s cl = true ->
   /\ (forall p c q, In (p, c) cl -> In q (pids s) -> eligible cfg s q = true -> keptp s cl q = true ->
         total (ap_at s p) <= total (ap_at s q))
   /\ (acount s <= c_low cfg -> cl = [])
-  /\ (disabled cfg = false -> c_low cfg < acount s -> remaining_eligible cfg s cl <= c_low cfg).
+  /\ (disabled cfg = false -> c_low cfg < acount s -> remaining_eligible cfg s cl <= Z.max 0 (c_low cfg)).
 Proof. exact trim_prop_spec. Qed.
 Print Assumptions c14_trim_clauses.
 
@@ -83,7 +87,7 @@ Print Assumptions c14_trim_clauses.
    states, see c14_value_is_tag_sum / c14_conncount_is_sum) *)
 Theorem c14_model_trim_ok : forall (sort : list cand -> list cand),
   (forall l, Permutation (sort l) l) -> (forall l, StronglySorted kle (sort l)) ->
-  forall cfg s, inv s -> 0 <= c_low cfg -> trim_ok cfg (abs s) (snd (trim sort cfg s)) = true.
+  forall cfg s, inv s -> trim_ok cfg (abs s) (snd (trim sort cfg s)) = true.
 Proof. exact model_trim_ok_l. Qed.
 Print Assumptions c14_model_trim_ok.
 
@@ -137,12 +141,12 @@ Print Assumptions c14_force_trim_may_stop_above_low.
    imply, under ANY interleaving with trims": the cached value is the tag sum
    and the cached count the number of tracked connections in every state of
    every schedule (also between the steps of a trim and of a decay tick) *)
-Theorem c14_conc_count_and_totals_every_schedule : forall cfg sched p, 0 <= c_low cfg ->
+Theorem c14_conc_count_and_totals_every_schedule : forall cfg sched p,
   let s := cs_s (fst (crun cfg (cinit cfg) sched)) in
   p_value (peer_at s p) = zsum (p_tags (peer_at s p)) + zsum (p_dec (peer_at s p))
   /\ count s = zsum (map (fun pi => zlen (p_conns pi)) (peers s)).
 Proof.
-  intros cfg sched p Hlow s. pose proof (ci_inv _ _ (cinv_run cfg sched (cinit cfg) Hlow (cinv_init cfg))) as H.
+  intros cfg sched p s. pose proof (ci_inv _ _ (cinv_run cfg sched (cinit cfg) (cinv_init cfg))) as H.
   split; [exact (proj1 (proj2 (peer_at_ok _ p H)))|exact (proj2 H)].
 Qed.
 Print Assumptions c14_conc_count_and_totals_every_schedule.
@@ -153,13 +157,13 @@ Print Assumptions c14_conc_count_and_totals_every_schedule.
    phase lasts the real table IS that table, because Protect/Unprotect block on
    plk (second theorem).  A Protect issued after the snapshot phase does not
    save the peer: that is what the code guarantees, no more. *)
-Theorem c14_conc_protected_at_snapshot_never_selected : forall cfg sched, 0 <= c_low cfg ->
+Theorem c14_conc_protected_at_snapshot_never_selected : forall cfg sched,
   let cs := fst (crun cfg (cinit cfg) sched) in
   (forall e, In e (cs_cands cs) -> is_prot (cs_psnap cs) (ce_p e) = false)
   /\ (forall p c, In (p, c) (cs_sel cs) -> exists e, In e (cs_cands cs) /\ ce_p e = p)
   /\ (forall vis, cs_ph cs = TSnap vis -> prot (cs_s cs) = cs_psnap cs).
 Proof.
-  intros cfg sched Hlow cs. pose proof (cinv_run cfg sched (cinit cfg) Hlow (cinv_init cfg)) as H. fold cs in H.
+  intros cfg sched cs. pose proof (cinv_run cfg sched (cinit cfg) (cinv_init cfg)) as H. fold cs in H.
   repeat split.
   - intros e He. exact (proj1 (ci_snap _ _ H e He)).
   - exact (ci_sel _ _ H).
@@ -176,12 +180,12 @@ Print Assumptions c14_conc_protect_blocks_during_snapshot.
    ASnap from the live entry) is not after gracePeriodStart: a peer inside its
    grace period when snapshotted is never a candidate, so none of its
    connections is ever selected or closed by that trim *)
-Theorem c14_conc_in_grace_at_snapshot_never_selected : forall cfg sched, 0 <= c_low cfg ->
+Theorem c14_conc_in_grace_at_snapshot_never_selected : forall cfg sched,
   let cs := fst (crun cfg (cinit cfg) sched) in
   forall e, In e (cs_cands cs) -> ce_first e <= cs_gstart cs.
 Proof.
-  intros cfg sched Hlow cs e He.
-  exact (proj2 (ci_snap _ _ (cinv_run cfg sched (cinit cfg) Hlow (cinv_init cfg)) e He)).
+  intros cfg sched cs e He.
+  exact (proj2 (ci_snap _ _ (cinv_run cfg sched (cinit cfg) (cinv_init cfg)) e He)).
 Qed.
 Print Assumptions c14_conc_in_grace_at_snapshot_never_selected.
 
@@ -204,13 +208,13 @@ Print Assumptions c14_conc_selection_rechecks_grace.
    trim), and a selected connection whose candidate is still the same peer entry
    belongs, in every state of every schedule up to the close, to a peer that is
    not temp and whose firstSeen is not after gracePeriodStart *)
-Theorem c14_conc_selected_peer_out_of_grace_every_schedule : forall cfg sched, 0 <= c_low cfg ->
+Theorem c14_conc_selected_peer_out_of_grace_every_schedule : forall cfg sched,
   let cs := fst (crun cfg (cinit cfg) sched) in
   (is_idle (cs_ph cs) = false -> cs_gstart cs <= now (cs_s cs) - c_grace cfg)
   /\ forall p c e, In (p, c) (cs_sel cs) -> In e (cs_cands cs) -> ce_p e = p -> ce_live e = true ->
        p_temp (peer_at (cs_s cs) p) = false /\ p_first (peer_at (cs_s cs) p) <= cs_gstart cs.
 Proof.
-  intros cfg sched Hlow cs. pose proof (cinv_run cfg sched (cinit cfg) Hlow (cinv_init cfg)) as H. fold cs in H.
+  intros cfg sched cs. pose proof (cinv_run cfg sched (cinit cfg) (cinv_init cfg)) as H. fold cs in H.
   split; [exact (ci_clock _ _ H)|exact (ci_self _ _ H)].
 Qed.
 Print Assumptions c14_conc_selected_peer_out_of_grace_every_schedule.
@@ -219,26 +223,26 @@ Print Assumptions c14_conc_selected_peer_out_of_grace_every_schedule.
    its live candidates that are still out of grace number at most low + the connections that Connected
    added to a live candidate after its snapshot (ghost counters); with no such
    Connected the bound is low *)
-Theorem c14_conc_left_at_most_low_plus_added : forall cfg sched, 0 <= c_low cfg ->
+Theorem c14_conc_left_at_most_low_plus_added : forall cfg sched,
   let cs := fst (crun cfg (cinit cfg) sched) in
   cs_ph cs = TClose ->
-  phi (cs_s cs) (cs_gstart cs) (cs_sel cs) (cs_cands cs) <= c_low cfg + cs_added1 cs + cs_added2 cs.
+  phi (cs_s cs) (cs_gstart cs) (cs_sel cs) (cs_cands cs) <= Z.max 0 (c_low cfg) + cs_added1 cs + cs_added2 cs.
 Proof.
-  intros cfg sched Hlow cs E. exact (phi_at_close cfg cs (cinv_run cfg sched (cinit cfg) Hlow (cinv_init cfg)) E).
+  intros cfg sched cs E. exact (phi_at_close cfg cs (cinv_run cfg sched (cinit cfg) (cinv_init cfg)) E).
 Qed.
 Print Assumptions c14_conc_left_at_most_low_plus_added.
 
 (* (d) every value the sort's comparator reads is the peer's tag total at the
    instant of that comparison (its critical section is the linearisation
    point): no torn per-peer value, in any reachable state *)
-Theorem c14_conc_no_torn_value : forall cfg sched p q cs' evs, 0 <= c_low cfg ->
+Theorem c14_conc_no_torn_value : forall cfg sched p q cs' evs,
   let cs := fst (crun cfg (cinit cfg) sched) in
   cstep cfg cs (ACmp p q) = Some (cs', evs) ->
   cs' = cs /\ forall x v, In (ERead x v) evs ->
     v = zsum (p_tags (peer_at (cs_s cs) x)) + zsum (p_dec (peer_at (cs_s cs) x)).
 Proof.
-  intros cfg sched p q cs' evs Hlow cs Hs.
-  exact (cmp_reads cfg cs p q cs' evs (cinv_run cfg sched (cinit cfg) Hlow (cinv_init cfg)) Hs).
+  intros cfg sched p q cs' evs cs Hs.
+  exact (cmp_reads cfg cs p q cs' evs (cinv_run cfg sched (cinit cfg) (cinv_init cfg)) Hs).
 Qed.
 Print Assumptions c14_conc_no_torn_value.
 
@@ -260,7 +264,7 @@ Print Assumptions c14_conc_decayer_commutes_with_trim.
 
 (* the monitor that judges the implementation's scripted during-trim
    interleavings by clauses (a)-(d) accepts the event trace of EVERY schedule *)
-Theorem c14_conc_monitor_accepts_every_schedule : forall cfg sched, 0 <= c_low cfg ->
+Theorem c14_conc_monitor_accepts_every_schedule : forall cfg sched,
   exists m', cmon cfg (cm_init (ainit cfg)) 0 (snd (crun cfg (cinit cfg) sched)) = inl m'.
 Proof. exact cmon_accepts_l. Qed.
 Print Assumptions c14_conc_monitor_accepts_every_schedule.
